@@ -834,6 +834,11 @@ theorem nss_step_text (cl : Str → Nat) (dflt : Style) (fuel : Nat) (st : Style
     split
     · rename_i h; injection h with h _; omega
     · rfl
+  have hosc : hasOsc8Prefix (c :: (g' ++ rest)) = false := by
+    unfold hasOsc8Prefix
+    split
+    · rename_i h; injection h with h _; omega
+    · rfl
   have hn : max 1 ((c :: g').length) = (c :: g').length := by simp
   have ht : (c :: (g' ++ rest)).take (c :: g').length = c :: g' := by
     rw [← List.cons_append]; simp
@@ -841,7 +846,7 @@ theorem nss_step_text (cl : Str → Nat) (dflt : Style) (fuel : Nat) (st : Style
     rw [← List.cons_append]; simp
   simp only [List.cons_append] at hcl ⊢
   conv => lhs; unfold nssLoop
-  simp only [hpre, Bool.false_eq_true, if_false, hcl, hn, ht, hd]
+  simp only [hpre, hosc, Bool.false_eq_true, if_false, hcl, hn, ht, hd]
   cases nssLoop cl dflt fuel st rest <;> rfl
 
 /-- **`NewStyledString` on the printed token sequence is the token-level `ssParseToks (ssSeq dflt)`.** -/
